@@ -413,28 +413,60 @@ def replay_saw_twin(inputs, label, cmode, amode):
 
 
 # ---------------------------------------------------------------- classifier tie-breaking
-def sym_clf(c, n, nq):
-    from skactiveml.classifier import ParzenWindowClassifier
+def sym_clf(c, n, nq, kind="pwc", cost=False):
+    from skactiveml.classifier import ParzenWindowClassifier, SklearnClassifier
     seed = core.fresh_int("seed", 0, 2 ** 31 - 2)
     rec(c, "seed", seed)
     lab = [c.choose([(-1, True), (0, True), (1, True)], f"label{i}") for i in range(n)]
+    rec(c, "labels", list(lab))
     y = arrays.SymNd(np.array([np.nan if k < 0 else float(k) for k in lab]))
-    ks = [[core.fresh_float(f"k{i}_{j}") for j in range(n)] for i in range(nq)]
-    for row in ks:
-        for v in row:
-            c.assume(v.r >= 0)
-    Kq = arrays.SymNd(arrays._to_obj(ks), float)
+    C = [[0.0, 1.0], [1.0, 0.0]] if cost else None
     preds = []
+    if kind == "pwc":
+        ks = [[core.fresh_float(f"k{i}_{j}") for j in range(n)] for i in range(nq)]
+        for row in ks:
+            for v in row:
+                c.assume(v.r >= 0)
+        Kq = arrays.SymNd(arrays._to_obj(ks), float)
+    else:
+        from harness import C11
+        Kq = arrays.SymNd(arrays._to_obj([core.fresh_float(f"q{i}") for i in range(nq)]), float).reshape(nq, 1)
     for g in ("G1", "G2"):
         facade.set_global_seed(z3.Int(g))
-        clf = ParzenWindowClassifier(metric="precomputed", classes=[0.0, 1.0], random_state=seed).fit(F.zeros((n, 1)), y)
+        if kind == "pwc":
+            clf = ParzenWindowClassifier(metric="precomputed", classes=[0.0, 1.0], cost_matrix=C, random_state=seed).fit(F.zeros((n, 1)), y)
+        else:
+            # SklearnClassifier around a stub estimator: fitted path, and (no labels) the label-frequency fallback
+            clf = SklearnClassifier(C11.make_stub_estimator()(), classes=[0.0, 1.0], cost_matrix=C, random_state=seed)
+            clf.fit(F.arange(n).astype(float).reshape(n, 1), y)
         preds.append([float(v) for v in arrays.raw(arrays.asnd(clf.predict(Kq)))])
         preds.append([float(v) for v in arrays.raw(arrays.asnd(clf.predict(Kq)))])
     c.prove(preds[0] == preds[2], "independent_of_global_generator_and_twin_equal", info=dict(first=preds[0], twin=preds[2]))
     c.witness(True, "ran")
 
 
-def replay_clf(inputs, label, n, nq):
+def replay_clf(inputs, label, n, nq, kind="pwc", cost=False):
+    from sklearn.naive_bayes import GaussianNB
+    from skactiveml.classifier import ParzenWindowClassifier, SklearnClassifier
+    lab = [int(k) for k in inputs.get("labels", [-1] * n)]
+    C = [[0.0, 1.0], [1.0, 0.0]] if cost else None
+    # the counterexample's labels, then no labels at all (uniform probabilities: every prediction is a tie)
+    for labels in (lab, [-1] * n):
+        y = np.array([np.nan if k < 0 else float(k) for k in labels])
+        X = np.arange(n, dtype=float).reshape(n, 1)
+        Xq = np.zeros((40, 1))
+        for seed in (int(inputs.get("seed", 0)), 0, 1):
+            outs = []
+            for g in range(6):
+                np.random.seed(g)
+                if kind == "pwc":
+                    clf = ParzenWindowClassifier(classes=[0.0, 1.0], cost_matrix=C, random_state=seed).fit(X, y)
+                else:
+                    clf = SklearnClassifier(GaussianNB(), classes=[0.0, 1.0], cost_matrix=C, random_state=seed).fit(X, y)
+                outs.append(np.asarray(clf.predict(Xq)).tolist())
+            if any(o != outs[0] for o in outs):
+                return True, (f"{kind} classifier (cost_matrix={C}, random_state={seed}) fitted on labels {labels}: predictions of 40 tied "
+                              f"samples depend on numpy's global generator")
     return False, "not reproduced"
 
 
@@ -488,7 +520,8 @@ HARNESSES = [Harness(f"pool_twin[{name}]", sym_pool, replay_pool, _cfg_pool(name
                                                                   [(a, b) for a in ("none", "idx", "rows") for b in ("none", "idx", "matrix")])],
             ["skactiveml.pool.multiannotator._wrapper:SingleAnnotatorWrapper.query", "skactiveml.utils._aggregation:majority_vote"],
             required_witnesses=("ran",)),
-    Harness("classifier_tie_breaking", sym_clf, replay_clf, lambda tier: [dict(n=2, nq=2)],
+    Harness("classifier_tie_breaking", sym_clf, replay_clf,
+            lambda tier: [dict(n=2, nq=2)] + [dict(n=2, nq=1, kind=k, cost=cm) for k in ("pwc", "sklearn") for cm in (False, True) if (k, cm) != ("pwc", False)],
             ["skactiveml.base:SkactivemlClassifier.predict", "skactiveml.utils._selection:rand_argmin"], required_witnesses=("ran",)),
 ]
 BOUNDS = dict(quick="pool: n = 3, batch 2, candidates=None for the 27 adapter strategies (TypiClust / Clue / ProbCover / DropQuery with a clusterer that draws from the "
